@@ -129,9 +129,21 @@ def file_form(p):
         text = wb.value()
         if done != ['C']:
             return fail(stage='dump_to_file', done=done)
-        f = shortread.ShortReadFile(text, [c1, c1 + 1])     # two short reads: ...c1 | one character | rest; a cut beyond the end of the text is never hit
+        if p.get('encoding'):
+            # file given by name with an explicit encoding and a custom open_obj: whatever mode the loader asks for, the file delivers (text, or the utf-8 bytes of it)
+            from vp.stubs import codecs_model
+            modes = []
+
+            def ropen(name, mode='r', encoding=None):
+                modes.append((name, mode, encoding))
+                if 'b' in mode:
+                    return shortread.ShortReadFile(codecs_model.U8Enc().encode(text), [c1, c1 + 1])
+                return shortread.ShortReadFile(text, [c1, c1 + 1])
+            f, kwl = 'x.csv', dict(encoding=p['encoding'], open_obj=ropen)
+        else:
+            f, kwl = shortread.ShortReadFile(text, [c1, c1 + 1]), {}     # two short reads: ...c1 | one character | rest; a cut beyond the end of the text is never hit
         out = []
-        csv.load_from_file(f, csv.create_line_parser(dtype=dtype, separator=sep, escapechar=esc)).subscribe(
+        csv.load_from_file(f, csv.create_line_parser(dtype=dtype, separator=sep, escapechar=esc), **kwl).subscribe(
             on_next=lambda r: out.append(tuple(r)), on_error=lambda e: out.append(('ERR', type(e).__name__, str(e)[:120])), scheduler=ImmediateScheduler())
         exp = [tuple(r) for r in rows]
         return out == exp or fail(rows=exp, file_text=text, short_read_at=c1, observed=out, expected=exp)
@@ -400,6 +412,9 @@ def obligations(tier, seed):
     for lens in ([[1, 0], [0, 1]] if q else [[1, 0], [0, 1], [1, 1], [2, 0]]):
         for c1 in range(1, 24 + 2 * sum(lens)):
             obs.append(Ob(PROP, 'file_form', dict(lens=lens, sep='comma', esc='bs', c1=c1), budget=b, group='file_form', bound=dict(rows=2, string_chars=lens, short_read_at=c1)))
+        if lens == [1, 0]:
+            for c1 in range(5, 10):
+                obs.append(Ob(PROP, 'file_form', dict(lens=lens, sep='comma', esc='bs', c1=c1, encoding='utf-8'), budget=b, group='file_form:encoding', bound=dict(rows=2, string_chars=lens, short_read_at=c1, encoding='utf-8', file='by name + open_obj')))
     for k in ((1, 2, 3, 4) if q else (1, 2, 3, 4, 5, 6)):
         for idig in ((1, 2, 3) if q else (1, 2, 3, 4, 6)):
             obs.append(Ob(PROP, 'decimal', dict(k=k, idigits=idig, cross=not q, timeout=100 if q else 600), kind='direct', budget=120 if q else 700, group='decimal(z3x)',
